@@ -59,4 +59,43 @@ VF_PROPERTY(map_modes_msgpack, 2, "document map A, prior target B with overlappi
 VF_PROPERTY(map_modes_json, 2, "same through JSON") { pick<JsonArchive>(c, JSON); }
 VF_PROPERTY(map_modes_xml, 2, "same through XML (string keys that are XML Names)") { pick<XmlArchive>(c, XML); }
 
+// ---- sequences whose length the archive cannot announce (CSV) or announces only up to a cap (more than 4096 elements) ---------------
+namespace {
+struct SeqRow { int n = 0; std::string s; template <class Ar> void Serialize(Ar& ar) { ar << KeyValue("n", n) << KeyValue("s", s); } bool operator==(const SeqRow& o) const { return n == o.n && s == o.s; } };
+template <class C> std::string show_rows(const C& c) { std::string r; for (auto& x : c) r += vf::cat(x.n, ":", x.s, " "); return r; }
+template <class C> void run_csv_seq(vf::Ctx& c, const char* name) {
+	const size_t n = 1 + c.src.draw(8), p = c.src.draw(9); std::vector<SeqRow> data; for (size_t i = 0; i < n; i++) data.push_back({ static_cast<int>(i), "d" + std::to_string(c.src.draw(100)) });
+	C prior; { std::vector<SeqRow> pr; for (size_t i = 0; i < p; i++) pr.push_back({ 1000 + static_cast<int>(i), "p" + std::to_string(i) }); prior = C(pr.begin(), pr.end()); }
+	Cfg cfg; cfg.stream = c.src.coin(); std::string bytes; Cfg mem; Outcome so = save<CsvArchive>(data, bytes, mem); if (!so.ok()) c.fail("saving rows failed", so.str());
+	c.nontrivial = p >= 2 && n != p; c.label(p == 0 ? "prior-empty" : p < n ? "prior-shorter" : p == n ? "prior-same" : "prior-longer"); c.describe(vf::cat("csv ", name, " data=", n, " prior=", p, " stream=", cfg.stream));
+	Outcome lo = load<CsvArchive>(prior, bytes, cfg); const std::vector<SeqRow> got(prior.begin(), prior.end());
+	const std::string d = vf::cat("csv ", name, " data=", n, " prior=", p, " stream=", cfg.stream, " => ", lo.str(), " loaded=", show_rows(got), " want=", show_rows(data));
+	if (!lo.ok()) c.fail("loading into a populated target failed", d);
+	if (!(got == data)) c.fail("loading into a populated target gives a different value than the saved one", d);
+}
+template <class A, class C> void run_long_seq(vf::Ctx& c, int archId, const char* name) {
+	static const size_t sizes[] = { 4095, 4096, 4097, 4100, 5000, 8193 }; const size_t n = sizes[c.src.draw(6)], p = c.src.draw(7); std::vector<int> data(n); for (size_t i = 0; i < n; i++) data[i] = static_cast<int>(i * 7 + c.src.draw(3));
+	C prior; { std::vector<int> pr; for (size_t i = 0; i < p; i++) pr.push_back(-1 - static_cast<int>(i)); prior = C(pr.begin(), pr.end()); }
+	Cfg cfg; cfg.stream = c.src.coin(); std::string bytes; Cfg mem; Outcome so = save<A>(data, bytes, mem); if (!so.ok()) c.fail("saving failed", so.str());
+	c.nontrivial = true; c.label(vf::cat("n=", n)); c.describe(vf::cat(arch_name(archId), " ", name, " data=", n, " prior=", p, " stream=", cfg.stream));
+	Outcome lo = load<A>(prior, bytes, cfg); const std::vector<int> got(prior.begin(), prior.end());
+	size_t firstDiff = 0; while (firstDiff < got.size() && firstDiff < n && got[firstDiff] == data[firstDiff]) firstDiff++;
+	const std::string d = vf::cat(arch_name(archId), " ", name, " data=", n, " prior=", p, " stream=", cfg.stream, " => ", lo.str(), " loaded size=", got.size(), " first difference at ", firstDiff);
+	if (!lo.ok()) c.fail("loading into a populated target failed", d);
+	if (got != data) c.fail("loading into a populated target gives a different value than the saved one", d);
+}
+}
+VF_PROPERTY(reload_csv_sequences, 3, "CSV (the archive that cannot announce a row count): 1..8 rows loaded into a vector / deque / list / forward_list already holding 0..8 other rows: the result is exactly the saved rows in order; memory and stream; non-trivial = prior length >= 2 and different from the data length") {
+	switch (c.src.draw(4)) { case 0: run_csv_seq<std::vector<SeqRow>>(c, "vector"); break; case 1: run_csv_seq<std::deque<SeqRow>>(c, "deque"); break; case 2: run_csv_seq<std::list<SeqRow>>(c, "list"); break; default: run_csv_seq<std::forward_list<SeqRow>>(c, "forward_list"); }
+}
+VF_PROPERTY(reload_long_sequences, 1, "arrays of 4095 .. 8193 integers (around and beyond the 4096-element cap of the size estimate) loaded through MessagePack and JSON into a vector / deque / list / forward_list holding 0..6 other elements: the result is exactly the saved sequence; non-trivial = always") {
+	const bool mp = c.src.coin();
+	switch (c.src.draw(4)) {
+	case 0: if (mp) run_long_seq<MsgPackArchive, std::vector<int>>(c, MSGPACK, "vector"); else run_long_seq<JsonArchive, std::vector<int>>(c, JSON, "vector"); break;
+	case 1: if (mp) run_long_seq<MsgPackArchive, std::deque<int>>(c, MSGPACK, "deque"); else run_long_seq<JsonArchive, std::deque<int>>(c, JSON, "deque"); break;
+	case 2: if (mp) run_long_seq<MsgPackArchive, std::list<int>>(c, MSGPACK, "list"); else run_long_seq<JsonArchive, std::list<int>>(c, JSON, "list"); break;
+	default: if (mp) run_long_seq<MsgPackArchive, std::forward_list<int>>(c, MSGPACK, "forward_list"); else run_long_seq<JsonArchive, std::forward_list<int>>(c, JSON, "forward_list");
+	}
+}
+
 VF_MAIN("c18_map_modes")
